@@ -19,7 +19,22 @@ import (
 )
 
 func init() {
-	register(&Prop{ID: "C03", Module: "V.C03.Check", Gen: c03Gen, Quick: 3000, Thorough: 60000, Shard: 220})
+	register(&Prop{ID: "C03", Module: "V.C03.Check", Gen: c03Gen, Quick: 2600, Thorough: 60000, Shard: 200})
+}
+
+// c03ParseErrs: the messages of the errors d2parser.Parse reports for text
+func c03ParseErrs(text string) []string {
+	var out []string
+	defer func() { recover() }()
+	_, err := d2parser.Parse("", strings.NewReader(text), nil)
+	if pe, ok := err.(*d2parser.ParseError); ok {
+		for _, e := range pe.Errors {
+			out = append(out, e.Message)
+		}
+	} else if err != nil {
+		out = append(out, err.Error())
+	}
+	return out
 }
 
 func c03Parse(text string) (m *d2ast.Map, nerr int, fail string) {
@@ -93,6 +108,16 @@ func c03KF(text string, m *d2ast.Map, f1 string, m1 *d2ast.Map) []string {
 	return c03Signatures(text, m, f1, m1)
 }
 
+// c03KFExact: the signatures the input matches AND whose recorded misbehaviour is exactly what was observed
+// (see c03Confirm in c03_exact.go); a tagged input that misbehaves in any other way keeps no tag.
+func c03KFExact(text string, x c03Run) []string {
+	cands := c03Signatures(text, x.m, x.f1, x.m1)
+	if len(cands) == 0 || (x.nerr1 == 0 && x.f1 == x.f2) {
+		return cands
+	}
+	return c03Confirm(cands, x)
+}
+
 // ---------------------------------------------------------------- AST -> Coq term of the fragment
 
 type c03Conv struct {
@@ -156,7 +181,7 @@ func (c *c03Conv) nodes(m *d2ast.Map) string {
 			c.ok = false
 			return "[]"
 		}
-		if nb.IsBoardNode() {
+		if c03IsBoard(nb) {
 			c.ok = false
 			return "[]"
 		}
@@ -450,13 +475,19 @@ func c03SearchCase(text, class string) (Case, bool) {
 	}
 	c.Impl = map[string]any{"f1": c03Trunc(x.f1, 600), "f1_window": c03Trunc(w1, 300), "f2_window": c03Trunc(w2, 300), "reparse_errors": x.nerr1, "status": st}
 	c.Nontrivial = x.f1 != text || strings.ContainsAny(text, "\"'|#[")
-	c.KF = c03KF(text, x.m, x.f1, x.m1)
+	c.KF = c03KFExact(text, x)
 	return c, true
 }
 
 // c03ProgCase: an AST built the way d2oracle builds them (d2ast.RawString nodes without raw text): the
 // printer's escape functions decide the text.  Same property: re-parse without errors, second format identical.
 func c03ProgCase(key, val string, nested bool) Case {
+	if c03BoardWord(strings.ToLower(key)) { // board keywords are not ordinary keys
+		key = "x" + key
+	}
+	if c03BoardWord(strings.ToLower(val)) {
+		val = "x" + val
+	}
 	c := Case{Class: "search/programmatic", Key: "p:" + key + "\x00" + val + fmt.Sprint(nested)}
 	func() {
 		defer func() {
@@ -496,7 +527,7 @@ func c03ProgCase(key, val string, nested bool) Case {
 		c.Impl = map[string]any{"f1": f1, "f1_window": w1, "f2_window": w2, "reparse_errors": nerr1, "status": st}
 		c.Nontrivial = true
 		if m1 != nil {
-			c.KF = c03KF(f1, m1, f1, m1)
+			c.KF = c03KFExact(f1, c03Run{m: m1, f1: f1, m1: m1, nerr1: nerr1, f2: f2, parsed: true})
 		}
 	}()
 	if c.Coq == "" {
@@ -575,7 +606,7 @@ func c03FragCase(text, class string, must bool) Case {
 	c.Impl = map[string]any{"parsed_ok": x.parsed, "in_fragment": inF, "f1": x.f1, "reparse_errors": x.nerr1, "idempotent": x.f1 == x.f2}
 	c.Nontrivial = inF && (x.f1 != text)
 	if x.parsed {
-		c.KF = c03KF(text, x.m, x.f1, x.m1)
+		c.KF = c03KFExact(text, x)
 	}
 	return c
 }
@@ -684,6 +715,9 @@ func c03Gen(r *Rng, tier string, n int) []Case {
 			seen[pc.Key] = true
 			out = append(out, pc)
 		}
+	}
+	for i := 0; i < budget/10; i++ {
+		addSearch(c03BlockWSProgram(r), "block-ws")
 	}
 	for i, tries := 0, 0; i < nGen && tries < nGen*6; tries++ {
 		t := c03Program(r, tries%3 == 0)
